@@ -3,7 +3,7 @@
     correspond(seed, quick) -> dict(evaluations, disagreements, samples, distribution, ...)
     correspond_conv(seed, quick) -> dict(evaluations, disagreements, samples, ...)   whole conversion (see below)
     correspond_replay(seed, quick) -> dict(...)   the callbacks driven directly with arbitrary event lists (see below)
-    python3 -m vlib.xmlfront [--conv | --replay] [--thorough] [--seed N] [--strict-codes] [--hex DOC]
+    python3 -m vlib.xmlfront [--conv | --replay | --inverse] [--thorough] [--seed N] [--strict-codes] [--hex DOC]
                                                           prints the disagreements, exits non-zero if there is any
                                                           (--strict-codes: an error-code-only difference counts too;
                                                            used for mutation analysis, 0 on the unchanged tree)
@@ -839,6 +839,56 @@ def correspond_replay(seed=1, quick=True):
     return {"evaluations": evaluations, "disagreements": disagreements, "samples": samples, "distribution": dist}
 
 
+def correspond_inverse(seed=1, quick=True):
+    """checks the parser assumptions of Model/XmlFrontEvents.events_of against the C: trees the library built for real
+    documents (all streams of cases()) -> events_of (the EXTRACTED function) -> the C callbacks (replay harness) -> the
+    dumped tree must be the original one, for every tree the extracted root_canon accepts (trees with embedded documents
+    are not replayed: their content comes from input bytes, not from the tree)"""
+    HT = common.build_harness("xmlfront_harness")
+    HR = common.build_harness("xmlfront_replay")
+    D = common.build_driver("XmlFront")
+    cs = cases(seed, quick)
+    hexes = [d.hex() if d else "-" for _, d in cs]
+    ans, _ = common.run_lines(HT, hexes, shards=min(common.NPROC, max(1, len(hexes) // 4)))
+    trees = {}
+    for (k, d), a in zip(cs, ans):
+        p = split_answer(a)
+        if p is None or not p[2].startswith("T OK ") or "!" in p[2]:
+            continue
+        body = p[2][5:].split(" ", 1)[1]              # drop the charset: "<lang> <n> node*"
+        trees.setdefault(body, k)
+    bodies = list(trees)
+    mo, _ = common.run_lines(D, ["V " + b for b in bodies], shards=min(common.NPROC, max(1, len(bodies) // 8)))
+    todo = [(b, o[6:].strip()) for b, o in zip(bodies, mo) if o is not None and o.startswith("EVS 1")]
+    ro, crashes = common.run_lines(HR, [ev for _, ev in todo], shards=min(common.NPROC, max(1, len(todo) // 4)))
+    disagreements = []
+    dist = {"trees": len(bodies), "canonical": len(todo), "not_canonical_by_kind": {}, "kinds": {}, "with_binary": 0, "with_cdata": 0, "with_namespace": 0}
+    for b, o in zip(bodies, mo):
+        if o is None or not o.startswith("EVS 1"):
+            kk = trees[b].split("(")[0]
+            dist["not_canonical_by_kind"][kk] = dist["not_canonical_by_kind"].get(kk, 0) + 1
+    for (b, ev), a in zip(todo, ro):
+        k = trees[b]
+        dist["kinds"][k.split("(")[0]] = dist["kinds"].get(k.split("(")[0], 0) + 1
+        if re.search(r" E t \d+ \d+ 1 ", " " + b):
+            dist["with_binary"] += 1
+        if " C " in b:
+            dist["with_cdata"] += 1
+        if "7c" in ev:
+            dist["with_namespace"] += 1
+        if a is None:
+            disagreements.append({"kind": "crash:inverse:" + k, "doc_hex": "", "events": ev[:3000], "c": "replay harness crashed", "model": b[:1500]})
+            continue
+        q = a.partition(" | STICKY ")[0].split(" ")
+        # Q <error> <skip> <depth> <pending> <charset> <lang> <n> node*
+        got = " ".join(q[6:])
+        if q[1] != "0" or got != b:
+            disagreements.append({"kind": "inverse:" + k, "doc_hex": "", "events": ev[:3000], "c": a[:1500], "model": b[:1500],
+                                  "what": "the C callbacks fed with events_of(tree) did not rebuild the tree"})
+    return {"evaluations": len(todo), "disagreements": disagreements, "samples": [{"tree": b[:200], "events": ev[:200]} for b, ev in todo[:6]],
+            "distribution": dist}
+
+
 def main(argv):
     quick = "--thorough" not in argv
     seed = 1
@@ -847,6 +897,12 @@ def main(argv):
     extra = []
     if "--hex" in argv:
         extra = [("cli", bytes.fromhex(argv[argv.index("--hex") + 1]))]
+    if "--inverse" in argv:
+        r = correspond_inverse(seed, quick)
+        for d in r["disagreements"][:20]:
+            print("DISAGREEMENT kind=%s\n  events= %s\n  C     = %s\n  tree  = %s" % (d["kind"], d["events"][:500], d["c"][:500], d["model"][:500]))
+        print("evaluations=%d disagreements=%d distribution=%s" % (r["evaluations"], len(r["disagreements"]), r["distribution"]))
+        return 1 if r["disagreements"] else 0
     if "--replay" in argv:
         r = correspond_replay(seed, quick)
         r.setdefault("soft_error_code_differences", 0)
